@@ -1,7 +1,8 @@
 import Iota.Driver.All
 import Iota.Driver.GenCode
+import Iota.Driver.GenSecp
 
 namespace Iota.Driver
 /-- the model's ops and the ops answered by the generated code -/
-def allOps : List (String × Handler) := modelOps ++ GenCode.ops
+def allOps : List (String × Handler) := modelOps ++ GenCode.ops ++ GenSecp.ops
 end Iota.Driver
